@@ -24,6 +24,7 @@ pub struct Eip2930Transaction {
     pub gas: U256,
     /// The target address for the transaction. This can also be `None` to
     /// indicate a contract creation transaction.
+    #[serde(default, with = "serialization::addressopt")]
     pub to: Option<Address>,
     /// The amount of Ether to send with the transaction.
     #[serde(with = "serialization::uint")]
